@@ -100,7 +100,7 @@ fn device_state(dev: &Matter<'_>, kv: &KvRef, roots: &[u64; 2], inc: &RefCell<In
         s.fabrics.iter().map(|f| {
             let root_fp = fnv(f.root_ca());
             let own = roots.iter().position(|r| *r == root_fp).map(|p| p + 1).unwrap_or(0);
-            json!({"idx": f.fab_idx().get(), "own": own, "node": f.node_id(), "label": f.label(), "acl": f.acl_iter().count(), "root": root_fp.to_string()})
+            json!({"idx": f.fab_idx().get(), "own": own, "node": f.node_id(), "label": f.label(), "acl": f.acl_iter().count(), "root": root_fp.to_string(), "noc": fnv(f.noc()).to_string()})
         }).collect()
     });
     // incarnations: bumped whenever the fabric at an index appears or changes its root
@@ -253,6 +253,7 @@ fn one_story(ops: &[Value], tr: &mut Trace) -> String {
                 fabs[c] = ctl[c].with_state(|s| s.fabrics.add(&crypto, canon.reference(), rcac, &noc, &[], Some(ipk.reference()), 0xFFF1, ctrl_id(c)).map(|f| f.fab_idx()))?;
             }
             let mut dev_noc: [Option<Vec<u8>>; 2] = [None, None];
+            let mut dev_unoc: [Option<Vec<u8>>; 2] = [None, None];
             let ops = if ops.first().map(|o| o["op"] == "Config").unwrap_or(false) { &ops[1..] } else { ops };
             let dev = || -> Option<&Matter<'static>> { let p = dev_ptr.get(); if p.is_null() { None } else { Some(unsafe { &*p }) } };
             let emit_state = |tag: &str| {
@@ -387,6 +388,36 @@ fn one_story(ops: &[Value], tr: &mut Trace) -> String {
                                     handle.complete().await?;
                                     dev_noc[ci] = Some(noc);
                                     Ok("OK".into())
+                                }
+                                "csru" => {
+                                    // CSRRequest(isForUpdateNOC = true): the administrator issues a new NOC (same node id, new key)
+                                    let nonce = [9u8; 32];
+                                    let handle = exchange.operational_credentials().csr_request(0, |req| req.csr_nonce(OctetStr::new(&nonce))?.is_for_update_noc(Some(true))?.end()).await?;
+                                    let noc = {
+                                        let resp = handle.response()?;
+                                        let nocsr = resp.nocsr_elements()?;
+                                        let root = TLVElement::new(nocsr.0).structure()?;
+                                        let csr = OctetStr::from_tlv(&root.ctx(1)?)?;
+                                        with_gen!(ci, ng, ng.generate(&crypto, csr.0, DEV_NODE_ID, &[], VALID_FOREVER)?.to_vec())
+                                    };
+                                    handle.complete().await?;
+                                    dev_unoc[ci] = Some(noc);
+                                    Ok("OK".into())
+                                }
+                                "unoc" => {
+                                    let noc = match &dev_unoc[ci] {
+                                        Some(n) => n.clone(),
+                                        None => {
+                                            let key = crypto.generate_secret_key()?;
+                                            let mut csr_buf = [0u8; 256];
+                                            let csr = key.csr(&mut csr_buf)?;
+                                            with_gen!(ci, ng, ng.generate(&crypto, csr, DEV_NODE_ID, &[], VALID_FOREVER)?.to_vec())
+                                        }
+                                    };
+                                    let handle = exchange.operational_credentials().update_noc(0, |req| req.noc_value(OctetStr::new(&noc))?.icac_value(None)?.end()).await?;
+                                    let code = format!("{:?}", handle.response()?.status_code()?);
+                                    handle.complete().await?;
+                                    Ok(code)
                                 }
                                 "root" => {
                                     let rcac = if ci == 0 { rcac0 } else { rcac1 };
